@@ -118,8 +118,19 @@ def evaluate(old_a, new_a, m, k, rng):
     old_sp = spell(old, k + 1, rng)
     rec["old_in"] = old_sp
     rec["cls"] = [call(f["cls"], pep440(new), pep440(old)), call(f["cls"], semver(new), semver(old)),
-                  call(f["cls"], pep_in, old_sp)]
+                  call(f["cls"], pep_in, old_sp),
+                  # release tuples of different lengths: PEP 440 reads "1.0" and "1" as 1.0.0 (trailing zeros dropped)
+                  call(f["cls"], pep440(new), short(old)), call(f["cls"], short(new), pep440(old))]
     return rec
+
+
+def short(v):
+    """The PEP 440 spelling of v with the trailing zero release components left out (same version)."""
+    rel = [v["maj"], v["min"], v["pat"]]
+    while len(rel) > 1 and rel[-1] == 0:
+        rel.pop()
+    s = ".".join(str(x) for x in rel)
+    return s if v["pre"] == "none" else "%s%s%d" % (s, v["pre"], v["n"])
 
 
 def equivalent_spelling(s, norm):
